@@ -25,6 +25,7 @@ package main
 
 import (
 	"context"
+	"encoding/json"
 	"fmt"
 	"io"
 	"log/slog"
@@ -233,12 +234,19 @@ func (c *checker) runHistory(i int) {
 	if only := os.Getenv("C43_ONLY"); only != "" { // development aid
 		transport = only
 	}
-	fam := family(transport)
 	h := wm.GenHistory(r.Rand(uint64(i)), i, transport, wm.GenOpt{Traces: true, MaxCalls: 6})
 	oc := cfgFor(i)
 	if i < 2 {
 		r.Sample(map[string]any{"history": h, "otel": oc})
 	}
+	c.runGiven(h, oc)
+}
+
+// runGiven runs one history under one OTel configuration and judges it.
+func (c *checker) runGiven(h wm.History, oc otelCfg) {
+	r := c.r
+	transport := h.Transport
+	fam := family(transport)
 	sp := newSpanProc()
 	var sampler sdktrace.Sampler
 	switch oc.Sampler {
@@ -498,6 +506,29 @@ func main() {
 	r.Assume("the propagator is configured explicitly (W3C TraceContext): with vgiotel.DefaultConfig and no global propagator set, OTel's default propagator is a no-op and no traceparent is ever honoured")
 	r.Assume("'the call failed' = the response reports an error to the client (EXCEPTION batch, status >= 400 or X-VGI-RPC-Error), as in C37; status/outcome demands are made only for dispatched calls in C37's sense")
 	r.Assume("the OTel SDK's TracerProvider / ManualReader and the pass-through recorder wrapped around the hook are trusted")
+	slog.SetDefault(slog.New(slog.NewTextHandler(io.Discard, nil)))
+	svc.SetSink(nil)
+	c := &checker{r: r, debug: os.Getenv("C43_DEBUG") != ""}
+	if p := r.ReplayPath(); p != "" {
+		// ./check C43 quick --replay <file>: re-run the history of a replay file
+		var doc struct {
+			Witness struct {
+				History wm.History `json:"history"`
+				Otel    otelCfg    `json:"otel"`
+			} `json:"witness"`
+		}
+		data, err := os.ReadFile(p)
+		if err == nil {
+			err = json.Unmarshal(data, &doc)
+		}
+		if err != nil || len(doc.Witness.History.Calls) == 0 {
+			r.Fatal("replay file %s: no history in it (%v)", p, err)
+		}
+		r.Require("replayed-history")
+		r.Class("replayed-history")
+		c.runGiven(doc.Witness.History, doc.Witness.Otel)
+		return
+	}
 	r.Require("transport.pipe", "transport.unix", "transport.http", "transport.http-net",
 		"tracing.true", "tracing.false", "metrics.true", "metrics.false", "sampler.always", "sampler.never", "sampler.parentbased",
 		"span.started-once-ended-once", "span.status-error-on-failure", "span.status-ok-on-success", "span.parented-on-sent-traceparent",
@@ -506,9 +537,6 @@ func main() {
 		"trace.none", "trace.valid", "trace.valid-unsampled", "trace.valid+state", "trace.valid+badstate", "trace.bad:short", "trace.bad:upper",
 		"trace.bad:zero-trace", "trace.bad:zero-span", "trace.bad:version-ff", "trace.bad:nonhex", "trace.bad:parts", "trace.bad:garbage", "trace.bad:trailing")
 
-	slog.SetDefault(slog.New(slog.NewTextHandler(io.Discard, nil)))
-	svc.SetSink(nil)
-	c := &checker{r: r, debug: os.Getenv("C43_DEBUG") != ""}
 	n := r.N(500, 20000)
 	workers := 4
 	if r.Thorough() {
